@@ -330,15 +330,22 @@ class FullTmpfs:
 # --------------------------------------------------------------------------------------
 
 def model_check(chk):
+    """the design-level statement: which variants of the writer/sink composition satisfy the property"""
+    from concurrent.futures import ThreadPoolExecutor
+
+    def one(item):
+        cfg, expect = item
+        return cfg, expect, common.run_tlc("MC_Sink", cfg=cfg, workers=2 if expect else 4, want_cases=False, timeout=900, heap="2g")
+
     out = {}
-    for cfg, expect in MODELS:
-        r = common.run_tlc("MC_Sink", cfg=cfg, workers=4, want_cases=False, timeout=600)
+    with ThreadPoolExecutor(max_workers=min(len(MODELS), nproc())) as ex:
+        results = list(ex.map(one, MODELS))
+    for cfg, expect, r in results:
         if r.error or r.rc not in (0, 12):
             raise common.InfraError("%s: TLC failed (%s)\n%s" % (cfg, r.error or r.rc, r.out[-2500:]))
         if r.violated != expect:
             if expect is None:
-                # the design that checks every result does not satisfy the property: a finding about the specification
-                raise common.InfraError("%s: invariant %s violated in the variant that must satisfy the property\n%s"
+                raise common.InfraError("%s: invariant %s violated in a variant that must satisfy the property\n%s"
                                         % (cfg, r.violated, r.out[-2500:]))
             raise common.InfraError("%s: expected violation of %s, TLC reports %s (the invariants do not bind)" % (cfg, expect, r.violated))
         chk.add_tlc(r)
